@@ -70,7 +70,7 @@ func modelFunctions(V []interface{}, single bool, funcs []int, faults [nFuncs]ui
 		i := count[f]
 		count[f]++
 		fail := i < 64 && faults[f]&(1<<uint(i)) != 0
-		e.calls = append(e.calls, CallRec{Func: f, Variant: variant, Arg: canon(arg), Fail: fail})
+		e.calls = append(e.calls, CallRec{Func: f, Variant: variant, Arg: canonArg(arg), Fail: fail})
 		if fail {
 			e.failedFn = append(e.failedFn, funcNames[f])
 		}
@@ -265,7 +265,7 @@ func runC14() *RunResult {
 	}
 	nt := 1
 	if chance(40) {
-		nt = 2 + rn(3)
+		nt = 2 + rn(widen(3))
 	}
 	for ti := 0; ti < nt; ti++ {
 		w.tasks = append(w.tasks, &Task{id: ti})
@@ -590,7 +590,7 @@ func runC14Operand() *RunResult {
 	}
 	nt := 1
 	if chance(40) {
-		nt = 2 + rn(3)
+		nt = 2 + rn(widen(3))
 	}
 	for ti := 0; ti < nt; ti++ {
 		w.tasks = append(w.tasks, &Task{id: ti})
@@ -601,7 +601,7 @@ func runC14Operand() *RunResult {
 		faults[f] = mask
 		var calls []CallRec
 		for k, a := range args {
-			calls = append(calls, CallRec{Func: f, Variant: cfg.Variant, Arg: canon(a), Fail: k < 64 && mask&(1<<uint(k)) != 0})
+			calls = append(calls, CallRec{Func: f, Variant: cfg.Variant, Arg: canonArg(a), Fail: k < 64 && mask&(1<<uint(k)) != 0})
 		}
 		expLog := perFuncLog(calls)
 		o := &Op{Kind: opCustom, Path: p, Cfg: cfg, Faults: faults}
